@@ -105,6 +105,8 @@ type Exec struct {
 	feasQ      int
 	panicOblig bool // record implicit-panic obligations
 	globalW    map[string]bool
+	globalInit map[string]bool // written only by constant stores inside sync.Once.Do
+	inOnce     int
 	globalR    map[string]bool
 	loopFuncs  map[string]bool
 	inStep     int
@@ -755,7 +757,14 @@ func (e *Exec) step(fr *frame, ins ssa.Instruction) {
 		p := e.get(fr, x.Addr).(*PtrV)
 		e.nilCheck(p, "store through nil pointer")
 		if strings.HasPrefix(p.obj.name, "global:") {
-			e.globalW[p.obj.name[7:]] = true
+			// one-time initialisation under sync.Once that stores constants at constant
+			// places (a lazily built lookup table) is synchronised and the same whoever
+			// runs it: recorded, not a write that could carry influence between CPUs
+			if e.inOnce > 0 && groundValue(e.get(fr, x.Val)) && groundPath(p.path) {
+				e.globalInit[p.obj.name[7:]] = true
+			} else {
+				e.globalW[p.obj.name[7:]] = true
+			}
 		}
 		e.access(p, true, false, fr.fn.Name())
 		e.store(p, e.get(fr, x.Val))
@@ -2370,4 +2379,35 @@ func loopExitIsFalse(b *ssa.BasicBlock) bool {
 	r := len(b.Succs) == 2 && reach(b.Succs[0]) && !reach(b.Succs[1])
 	loopExitCache.Store(b, r)
 	return r
+}
+
+func groundValue(v Value) bool {
+	switch x := v.(type) {
+	case *Term:
+		return x.op == OpConst
+	case *StructV:
+		for _, f := range x.f {
+			if !groundValue(f) {
+				return false
+			}
+		}
+		return true
+	case *ArrayV:
+		for _, f := range x.e {
+			if !groundValue(f) {
+				return false
+			}
+		}
+		return true
+	}
+	return false
+}
+
+func groundPath(p []pathElem) bool {
+	for _, pe := range p {
+		if pe.sym != nil && pe.sym.op != OpConst {
+			return false
+		}
+	}
+	return true
 }
